@@ -856,7 +856,24 @@ func (env *SpecEnv) binary(x EBinary) (SVal, error) {
 		return SVal{T: Term{c, SBool}}, nil
 	case "<", "<=", ">", ">=":
 		if a.T.Sort == SStr {
-			return SVal{}, fmt.Errorf("string ordering not supported in specs")
+			// same uninterpreted strict order as in code (exec.go)
+			u := env.ft.e.u
+			u.declFun("strlt", "(declare-fun strlt (Str Str) Bool)")
+			u.axiom("(forall ((a Str) (b Str)) (! (=> (strlt a b) (not (strlt b a))) :pattern ((strlt a b))))")
+			u.axiom("(forall ((a Str)) (! (not (strlt a a)) :pattern ((strlt a a))))")
+			u.axiom("(forall ((a Str) (b Str)) (! (or (strlt a b) (strlt b a) (= a b)) :pattern ((strlt a b))))")
+			var c string
+			switch x.Op {
+			case "<":
+				c = sx("strlt", a.T.S, b.T.S)
+			case ">":
+				c = sx("strlt", b.T.S, a.T.S)
+			case "<=":
+				c = not(sx("strlt", b.T.S, a.T.S))
+			default:
+				c = not(sx("strlt", a.T.S, b.T.S))
+			}
+			return SVal{T: Term{c, SBool}}, nil
 		}
 		return SVal{T: Term{sx(x.Op, a.T.S, b.T.S), SBool}}, nil
 	case "+":
